@@ -26,7 +26,9 @@ CONSTANTS MaxFiles,     \* files per invocation
           Folds,        \* subset of BOOLEAN: secrets as folded block scalars?
           Trails,       \* subset of {"", "ws", "allws", "empty"}: how the plaintexts end
           Keys,         \* subset of {"old", "other", "none"}: what the secrets are encrypted with
-          MaxAnchors,   \* 0..2 anchor names ("A", "B")
+          MaxAnchors,   \* 0..2 anchor names ("A", "B") for scalars
+          ContAnchors,  \* anchor names a container other than the root may carry (e.g. {"b"}); an anchored container
+                        \* may be referenced once more later in the file (`copy: *b`: a second visit of its positions)
           Backups       \* subset of BOOLEAN
 
 VARIABLES phase, gfiles, gdoc, st, hist
@@ -40,30 +42,45 @@ SecretSlots == {p \in 1..NSlots : IsEyaml(gdoc.objs[gdoc.slots[p].o].head)}
 UsedConts == {gdoc.slots[p].cont : p \in 1..NSlots}
 UsedAnchors == {gdoc.objs[i].anc : i \in 1..Len(gdoc.objs)} \ {""}
 \* a container other than the root may be continued or opened, never re-entered; 3 only after 2 (symmetry)
-ContOK(c) == c \in Conts /\ (c = 1 \/ (NSlots > 0 /\ gdoc.slots[NSlots].cont = c) \/ c \notin UsedConts)
+ContOK(c) == c \in Conts /\ (c = 1 \/ (NSlots > 0 /\ gdoc.slots[NSlots].cont = c /\ gdoc.slots[NSlots].vis = c) \/ c \notin UsedConts)
                          /\ (c = 3 => 2 \in UsedConts)
+\* the anchor of a container: fixed by its first position; a new container other than the root may take a free name
+CancOf(c) == gdoc.slots[CHOOSE p \in 1..NSlots : gdoc.slots[p].cont = c].canc
+UsedCanc == {gdoc.slots[p].canc : p \in 1..NSlots} \ {""}
+CancChoices(c) == IF c \in UsedConts THEN {CancOf(c)} ELSE IF c = 1 THEN {""} ELSE {""} \cup (ContAnchors \ UsedCanc)
 \* the next anchor name, if another one may be defined
 NextAnchor == IF Cardinality(UsedAnchors) < MaxAnchors THEN {AnchorNames[Cardinality(UsedAnchors) + 1]} ELSE {}
 
-AddSlot(c, o) == [gdoc EXCEPT !.slots = Append(@, [cont |-> c, ct |-> ContType(c), o |-> o])]
+AddSlot(c, o, ca) == [gdoc EXCEPT !.slots = Append(@, [cont |-> c, ct |-> ContType(c), o |-> o, vis |-> c,
+                                                       loc |-> NSlots + 1, canc |-> ca])]
 AddObj(d, head, key, anc, folded, trail) ==
   [d EXCEPT !.objs = Append(@, [head |-> head, key |-> key, pt |-> Len(d.objs) + 1, anc |-> anc, folded |-> folded,
                                 trail |-> trail])]
 
 Init == phase = "gen" /\ gfiles = <<>> /\ gdoc = EmptyDoc /\ st = 0 /\ hist = <<>>
 
-GenPlain == \E c \in Conts, h \in PlainHeads :
-  /\ phase = "gen" /\ NSlots < MaxLen /\ ContOK(c) /\ NSlots - Cardinality(SecretSlots) < MaxPlain
-  /\ gdoc' = AddObj(AddSlot(c, Len(gdoc.objs) + 1), h, "none", "", FALSE, "")
+GenPlain == \E c \in Conts, h \in PlainHeads, ca \in ContAnchors \cup {""} :
+  /\ phase = "gen" /\ NSlots < MaxLen /\ ContOK(c) /\ NSlots - Cardinality(SecretSlots) < MaxPlain /\ ca \in CancChoices(c)
+  /\ gdoc' = AddObj(AddSlot(c, Len(gdoc.objs) + 1, ca), h, "none", "", FALSE, "")
   /\ UNCHANGED <<phase, gfiles, st, hist>>
-GenSecret == \E c \in Conts, h \in SecretHeads, k \in Keys, f \in Folds, a \in {""} \cup NextAnchor, t \in Trails :
-  /\ phase = "gen" /\ NSlots < MaxLen /\ ContOK(c) /\ Cardinality(SecretSlots) < MaxSecret
-  /\ gdoc' = AddObj(AddSlot(c, Len(gdoc.objs) + 1), h, k, a, f, t)
+GenSecret == \E c \in Conts, h \in SecretHeads, k \in Keys, f \in Folds, a \in {""} \cup NextAnchor, t \in Trails,
+                ca \in ContAnchors \cup {""} :
+  /\ phase = "gen" /\ NSlots < MaxLen /\ ContOK(c) /\ Cardinality(SecretSlots) < MaxSecret /\ ca \in CancChoices(c)
+  /\ gdoc' = AddObj(AddSlot(c, Len(gdoc.objs) + 1, ca), h, k, a, f, t)
   /\ UNCHANGED <<phase, gfiles, st, hist>>
-GenAlias == \E c \in Conts, o \in 1..Len(gdoc.objs) :
-  /\ phase = "gen" /\ NSlots < MaxLen /\ ContOK(c) /\ Cardinality(SecretSlots) < MaxSecret
+GenAlias == \E c \in Conts, o \in 1..Len(gdoc.objs), ca \in ContAnchors \cup {""} :
+  /\ phase = "gen" /\ NSlots < MaxLen /\ ContOK(c) /\ Cardinality(SecretSlots) < MaxSecret /\ ca \in CancChoices(c)
   /\ gdoc.objs[o].anc # ""
-  /\ gdoc' = AddSlot(c, o)
+  /\ gdoc' = AddSlot(c, o, ca)
+  /\ UNCHANGED <<phase, gfiles, st, hist>>
+\* `copy: *b` in the root hash: the positions of the anchored, finished container c are visited a second time
+GenVisit == \E c \in UsedConts \ {1} :
+  LET ps == {p \in 1..NSlots : gdoc.slots[p].cont = c}
+      sq == [i \in 1..Cardinality(ps) |-> CHOOSE p \in ps : Cardinality({q \in ps : q < p}) = i - 1] IN
+  /\ phase = "gen" /\ CancOf(c) # "" /\ gdoc.slots[NSlots].cont # c
+  /\ \A p \in ps : gdoc.slots[p].vis = c                     \* not referenced yet
+  /\ NSlots + Cardinality(ps) <= MaxLen + 1
+  /\ gdoc' = [gdoc EXCEPT !.slots = @ \o [i \in 1..Len(sq) |-> [gdoc.slots[sq[i]] EXCEPT !.vis = 10 + c, !.loc = sq[i]]]]
   /\ UNCHANGED <<phase, gfiles, st, hist>>
 GenCloseFile ==
   /\ phase = "gen" /\ Len(gfiles) + 1 < MaxFiles
@@ -88,7 +105,7 @@ Backup         == Take("Backup", AnyEv)
 Write          == Take("Write", AnyEv)
 Exit           == Take("Exit", AnyEv)
 
-Next == GenPlain \/ GenSecret \/ GenAlias \/ GenCloseFile \/ Start \/ NextFile \/ Find \/ SkipSeenAnchor \/ Select \/ Decrypt \/ DecryptFail
+Next == GenPlain \/ GenSecret \/ GenAlias \/ GenVisit \/ GenCloseFile \/ Start \/ NextFile \/ Find \/ SkipSeenAnchor \/ Select \/ Decrypt \/ DecryptFail
         \/ Encrypt \/ Store \/ Backup \/ Write \/ Exit
 Spec == Init /\ [][Next]_vars
 
@@ -105,7 +122,9 @@ AtMostOnce      == Running => InvAtMostOnce(st)
 Progress        == Running /\ st.pc # "Done" => Expect(st) # {}
 MarkerSound     == (\A h \in SecretHeads : IsEyaml(h)) /\ (\A h \in PlainHeads : ~IsEyaml(h))
 \* with only old-key secrets whose plaintext the tool accepts the run succeeds
-Decryptable(d) == \A i \in 1..Len(d.objs) : IsEyaml(d.objs[i].head) => d.objs[i].key = "old" /\ ~Refused(d.objs[i])
+Decryptable(d) == /\ \A i \in 1..Len(d.objs) : IsEyaml(d.objs[i].head) => d.objs[i].key = "old" /\ ~Refused(d.objs[i])
+                  \* ... and, the path generator descending into a container at every reference, no secret is met twice
+                  /\ (ContainerGuard = "none" => \A p \in 1..Len(d.slots) : d.slots[p].loc = p \/ ~IsEyaml(d.objs[d.slots[p].o].head))
 SucceedsOnOld   == Running /\ st.pc = "Done" /\ (\A i \in 1..Len(st.files) : Decryptable(st.files[i])) => st.status = 0
 
 Emit == Running /\ st.pc = "Done" =>
